@@ -11,7 +11,6 @@ import JinjaV.Model.Symbols
   (c30-sym chooser (prog₀ prog₁ … progₙ))   analyse a chain of frames, frame i at level i with frames <i as parents;
         reply per frame: ((refs) (loads) (stores sorted) (param-targets sorted) (enter…) (leave…) "dump_local_context")
   (c30-cg chooser flags prog code)          emitted lines of the root frame
-  (c30-trans chooser (variables…) (referenced…))   key order of `variables` after ext.py:434-436
 -/
 namespace JinjaV.Wire.Symbols
 open JinjaV JinjaV.Symbols
@@ -92,14 +91,7 @@ def handleCg : List Sx → Sx
     | _, _, _, _ => Sx.bad
   | _ => Sx.bad
 
-def handleTrans : List Sx → Sx
-  | [ch, .list vs, .list rs] =>
-    match decChooser ch, Sx.mapM? Sx.toStr? vs, Sx.mapM? Sx.toStr? rs with
-    | some o, some vs, some rs => Sx.ok (Sx.ofStrs (transVariables (o []) (vs.map fun v => (v, v)) rs))
-    | _, _, _ => Sx.bad
-  | _ => Sx.bad
-
 def handlers : List (String × (List Sx → Sx)) :=
-  [("c30-sym", handleSym), ("c30-cg", handleCg), ("c30-trans", handleTrans)]
+  [("c30-sym", handleSym), ("c30-cg", handleCg)]
 
 end JinjaV.Wire.Symbols
